@@ -160,7 +160,7 @@ def d1(ctx, F):
         return site.body is hs and site.bb not in post
     sites = panics.analyse(ctx, [hs], "C11.D1.no-panic-after-ok", extra_rules=[unreachable_rule, map_get_unwrap(hs)], skip=only_post, include_alloc=False)
     sites2 = panics.analyse(ctx, helper_bodies, "C11.D1.no-panic-in-hand-over", include_alloc=False)
-    ctx.floor("C11.D1.sites", len(sites) + len(sites2), 1)
+    ctx.floor("C11.D1.bodies", 1 + len(helper_bodies), 2)
     ctx.extra["get_topic_some_variants"] = sorted(some_set)
     # also the pre-Ok part of handle_stream: first-frame handling must not panic either
     def only_pre(site):
@@ -195,7 +195,6 @@ def d2(ctx, F):
         sub.findings.append((rule, key, what, site))
     sub.fail = sub_fail
     sites = panics.analyse(sub, bodies, "C11.D2.no-frame-panics-router", skip=skip, include_alloc=False, F=F)
-    ctx.floor("C11.D2.sites", len(sites), 6)
     by_body = {}
     for s in sites:
         if s.discharged_by is None and not skip(s):
